@@ -1,12 +1,8 @@
-use candid_parser::utils::{service_compatible, CandidSource};
 fn main() {
-    let p1 = "type A = func (service { f : A; g : A }) -> (nat, A) query;\ntype A_1 = record { ok : A; 0 : A };\nservice : { m : () -> (service { f : () -> (nat) composite_query }) }";
-    let p2 = "type A = func (service { f : A; g : A }) -> (nat, A) query;\ntype A_1 = record { ok : A; 0 : A };\nservice : { m : () -> (reserved) }";
-    println!("{:?}", service_compatible(CandidSource::Text(p1), CandidSource::Text(p2)).map_err(|e| e.to_string()));
-    let h = std::thread::Builder::new().stack_size(256<<20).spawn(move || {
-        println!("{:?}", service_compatible(CandidSource::Text(p1), CandidSource::Text(p2)).map_err(|e| e.to_string()));
-        println!("{:?}", stacker_remaining());
-    }).unwrap();
-    h.join().unwrap();
+    let arg = std::env::args().nth(1).unwrap_or_default();
+    let s: &str = match arg.as_str() { "1" => "\"\\本\"", "2" => "\"\\é\"", "3" => "\"本\"", "4" => "\"\\a\"", "5" => "\"x\\本\"", _ => "\"\\n\"" };
+    println!("input {s:?} bytes {:x?}", s.as_bytes());
+    for t in candid_parser::token::Tokenizer::new(s) {
+        println!("{t:?}");
+    }
 }
-fn stacker_remaining() -> usize { 0 }
